@@ -629,10 +629,13 @@ class Diverges(Exception):
 
 
 CONV_VERBS = ["{x:%2}", "{x%2}", "{(x+2%x)%2}", "{x&5}", "{:[x>3;x;x+1]}", "{,/x}", "{1_x}", "{x}", "{x@<x}", "{?x}",
-              "{-x}", "{#x}", "{x+1}", "{pyhalf(x)}", "{|x}", "{x,1}"]
+              "{-x}", "{#x}", "{x+1}", "{pyhalf(x)}", "{|x}", "{x,1}",
+              # contractions on lists of reals: "the next value is the same" is Match, member by member
+              "{(x+[2.0 3.0])%2}", "{(x+3.0)%2}", "{(x+[[2.0 3.0] [1.0 5.0]])%2}", "{{(x+2%x)%2}'x}"]
 CONV_OPERANDS = [U.from_py(x) for x in (0, 1, 2, 3, 8, 17, 100, -3, 100000, 2.0, 0.5, 9.0, 1e-7, [1, 2, 3], [], [3, 1, 2],
                                         [2, 2, 1, 2], [1, [2, [3, [4], 5], 6], 7], [[1, 2], [3, 4]], [[1], [2, 3]],
-                                        ["f", ["l", "at"], "ten"], "abc", "", "hello foo")] \
+                                        ["f", ["l", "at"], "ten"], "abc", "", "hello foo",
+                                        [0.0, 0.0], [8.0, 4.0], [0.5, 1.5, 2.5], [[0.0, 0.0], [0.0, 0.0]], [1.0])] \
     + [U.C("a"), U.Y("foo"), ('D', [(U.I(1), U.I(2))])]
 WHILE_PREDS = ["{x<10}", "{x<100}", "{x<3}", "{x>0}", "{x<0}", "{0}", "{1}", "{#x}", "{x}", "{pylt10(x)}", '{""}',
                "{x-10}"]
@@ -719,7 +722,15 @@ def gen_convergence(ctx):
     if ctx.tier == "quick":
         ctx.rng.shuffle(cases)
         cases = cases[:700]
-    return cases
+    # contractions on lists of reals run on every check
+    P = U.from_py
+    fixed = []
+    for verb, ops in (("{(x+[2.0 3.0])%2}", [[0.0, 0.0], [8.0, 4.0]]), ("{(x+3.0)%2}", [[0.0, 0.0], [0.5, 1.5, 2.5], 0.5]),
+                      ("{(x+[[2.0 3.0] [1.0 5.0]])%2}", [[[0.0, 0.0], [0.0, 0.0]]]), ("{{(x+2%x)%2}'x}", [[8.0, 4.0], [1.0]]),
+                      ("{x%2}", [[8.0, 4.0], [0.5, 1.5, 2.5]])):
+        for a in ops:
+            fixed += [(":~", "-", verb, P(a)), ("\\~", "-", verb, P(a))]
+    return fixed + [c for c in cases if c not in fixed]
 
 
 def run_convergence(ctx, r, drv):
@@ -816,6 +827,45 @@ def run_convergence(ctx, r, drv):
                     ctx.bump("model-agrees:convergence" + (":calllog" if py_all else ""))
             elif impl.startswith("err"):
                 ctx.mismatch(f"Klong.C02 impl {adv} vs adverbs.py", dict(text=shown), "err / out of fuel", U.show(got))
+
+
+TORCH_OPS = ["+", "-", "*", "%", "&", "|"]
+TORCH_VECS = ["[1 2 3]", "[5 -3 2 7]", "[2 2 1 2]", "[1.5 -2.5]", "[0.5 1.5 2.5]", "[[1 2] [3 4]]", "[[1 2 3] [4 5 6]]",
+              "[[0.5 1.5] [2.5 3.5]]", "[7]", "[1 2 3 4 5]",
+              # operands whose partial products / sums leave the int64 or float32 range although every step of the fold stays inside
+              "[1 4294967296 4294967296 4294967296]", "[6 3000000000 3000000000 3000000000]", "[1.0e30 1.0e30 1.0e30]",
+              "[1000000 1000 1000 1000 1000 1000 1000 1000]", "[3000000000 3000000000 3]"]
+
+
+def run_torch_shortcuts(ctx):
+    """the operator shortcuts of the torch backend (reduce / accumulate kernels) against the same fold written
+    with the equivalent lambda, which takes the generic path; float32 tolerance, kinds exact"""
+    try:
+        from klongpy import KlongInterpreter
+        k = KlongInterpreter(backend="torch")
+    except Exception as e:          # torch not installed: nothing to compare
+        ctx.bump("torch:unavailable")
+        return
+
+    def ev(t):
+        try:
+            return U.canon(k(t))
+        except Exception as e:
+            return ('E', type(e).__name__)
+    for op in TORCH_OPS:
+        for v in TORCH_VECS:
+            for adv in ("/", "\\"):
+                t1, t2 = f"{op}{adv}{v}", "{x" + op + "y}" + adv + v
+                r1, r2 = ev(t1), ev(t2)
+                ctx.count(("torch-shortcut", t1), nontrivial=True)
+                ctx.bump("torch:shortcut-vs-lambda")
+                if r1[0] == 'E' and r2[0] == 'E':
+                    continue
+                if r1[0] == 'E' or r2[0] == 'E' or not U.veq(r1, r2, rtol=1e-4):
+                    ctx.oracle_fail(f"torch:{adv}:{op}", dict(text=t1, backend="torch"),
+                                    U.show(r2) if r2[0] != 'E' else f"raises {r2[1]}",
+                                    U.show(r1) if r1[0] != 'E' else f"raises {r1[1]}",
+                                    "operator shortcut differs from the fold written out with the equivalent lambda")
 
 
 def run(ctx):
@@ -940,6 +990,7 @@ def run(ctx):
             if len(ctx.samples) < 6 and ctx.evaluations % 211 == 1:
                 ctx.sample(dict(text=shown, expansion=U.show(want), real=U.show(got)))
         run_convergence(ctx, r, drv)
+        run_torch_shortcuts(ctx)
         run_chains(ctx, r, drv)
         run_redefinition(ctx, r)
     finally:
